@@ -39,8 +39,7 @@ structure Asm where
   deriving Repr, Inhabited
 
 structure FCfg where
-  cfg : Cfg
-  fails : List Bool              -- by player index: the iterables that raise after their samples
+  cfg : Cfg                      -- `cfg.fails`: by player index, the iterables that raise after their samples
   dieFixed : Bool                -- `run` has its loop inside `try … finally` (proposed fix)
   deriving Repr, Inhabited
 
@@ -52,8 +51,8 @@ structure FState where
 def initF (script : List Cmd) : FState := { base := init script, asm := [] }
 
 /-- `AudioThread.__init__` stores the iterable: nothing is pulled before `run` -/
-def newAsm (fc : FCfg) (i : Nat) (p : Player) : Asm :=
-  { rest := p.audio, fail := fc.fails.getD i false, buf := [] }
+def newAsm (_fc : FCfg) (_i : Nat) (p : Player) : Asm :=
+  { rest := p.audio, fail := p.fail, buf := [] }
 
 /-- one `Asm` for the player the control script may just have created -/
 def syncAsm (fc : FCfg) (ps : List Player) (asm : List Asm) : List Asm :=
